@@ -22,6 +22,7 @@ import (
 	"io"
 	"reflect"
 	"regexp"
+	"runtime/debug"
 	"sort"
 	"strings"
 
@@ -264,8 +265,54 @@ type trace struct {
 	flaky    bool // the 1 s real-time Lua deadline fired (machine load) - not a verdict
 }
 
+// recClient records every write the provider issues (verb + object name); the store can only change
+// through these calls, so "stable Ingress untouched" is decided on the write log after every call and
+// confirmed by a byte comparison of the stored objects at the end of the sequence.
+type recClient struct {
+	client.Client
+	writes []string
+}
+
+func (c *recClient) Create(ctx context.Context, obj client.Object, opts ...client.CreateOption) error {
+	c.writes = append(c.writes, "create "+obj.GetName())
+	return c.Client.Create(ctx, obj, opts...)
+}
+func (c *recClient) Update(ctx context.Context, obj client.Object, opts ...client.UpdateOption) error {
+	c.writes = append(c.writes, "update "+obj.GetName())
+	return c.Client.Update(ctx, obj, opts...)
+}
+func (c *recClient) Patch(ctx context.Context, obj client.Object, patch client.Patch, opts ...client.PatchOption) error {
+	c.writes = append(c.writes, "patch "+obj.GetName())
+	return c.Client.Patch(ctx, obj, patch, opts...)
+}
+func (c *recClient) Delete(ctx context.Context, obj client.Object, opts ...client.DeleteOption) error {
+	c.writes = append(c.writes, "delete "+obj.GetName())
+	return c.Client.Delete(ctx, obj, opts...)
+}
+func (c *recClient) DeleteAllOf(ctx context.Context, obj client.Object, opts ...client.DeleteAllOfOption) error {
+	c.writes = append(c.writes, "deleteAllOf "+obj.GetName())
+	return c.Client.DeleteAllOf(ctx, obj, opts...)
+}
+func (c *recClient) Status() client.StatusWriter { return &recStatus{c.Client.Status(), c} }
+
+type recStatus struct {
+	client.StatusWriter
+	c *recClient
+}
+
+func (s *recStatus) Update(ctx context.Context, obj client.Object, opts ...client.SubResourceUpdateOption) error {
+	s.c.writes = append(s.c.writes, "status-update "+obj.GetName())
+	return s.StatusWriter.Update(ctx, obj, opts...)
+}
+func (s *recStatus) Patch(ctx context.Context, obj client.Object, patch client.Patch, opts ...client.SubResourcePatchOption) error {
+	s.c.writes = append(s.c.writes, "status-patch "+obj.GetName())
+	return s.StatusWriter.Patch(ctx, obj, patch, opts...)
+}
+
 type env struct {
-	cli      client.Client
+	cli      *recClient
+	seenW    int
+	canary   *netv1.Ingress // canary Ingress in the store after the last call (nil = absent)
 	class    string
 	stable0  *netv1.Ingress
 	by0      *netv1.Ingress
@@ -364,18 +411,28 @@ func multisetDiff(a, b []string) (onlyA, onlyB []string) {
 	return
 }
 
-// invariants evaluated on the store after every call of the provider.
+// invariants evaluated after every call of the provider: the write log (nothing but the canary Ingress
+// may be written) and the canary Ingress's paths.
 func (e *env) invariants(op string) *netv1.Ingress {
-	st := e.get(ingName)
-	if !reflect.DeepEqual(st, e.stable0) {
-		e.find("C14/stable-modified/"+strings.SplitN(op, "(", 2)[0], fmt.Sprintf("after %s the stable Ingress in the store differs at %v\nbefore: %s\nafter:  %s", op, lib.JSONDiff(e.stable0, st), lib.J(e.stable0), lib.J(st)))
+	opName := strings.SplitN(op, "(", 2)[0]
+	opName = strings.SplitN(opName, "#", 2)[0]
+	for _, w := range e.cli.writes[e.seenW:] {
+		name := w[strings.Index(w, " ")+1:]
+		switch name {
+		case canaryIng:
+		case ingName:
+			e.find("C14/stable-modified/"+opName, fmt.Sprintf("%s issued a write to the stable Ingress: %s", op, w))
+		default:
+			e.find("C14/foreign-write/"+opName, fmt.Sprintf("%s issued a write to an object that is not the canary Ingress: %s", op, w))
+		}
 	}
-	by := e.get(bystander)
-	if !reflect.DeepEqual(by, e.by0) {
-		e.find("C14/bystander-modified/"+strings.SplitN(op, "(", 2)[0], fmt.Sprintf("after %s the unrelated Ingress %q differs at %v", op, bystander, lib.JSONDiff(e.by0, by)))
+	wrote := len(e.cli.writes) > e.seenW
+	e.seenW = len(e.cli.writes)
+	if wrote {
+		e.canary = e.get(canaryIng)
 	}
-	c := e.get(canaryIng)
-	if c != nil {
+	c := e.canary
+	if c != nil && wrote {
 		missing, extra := multisetDiff(e.expPaths, actualPaths(c))
 		if len(missing)+len(extra) > 0 {
 			kind := "missing+extra"
@@ -388,6 +445,19 @@ func (e *env) invariants(op string) *netv1.Ingress {
 		}
 	}
 	return c
+}
+
+// storeUnchanged: byte comparison of the stable and the bystander Ingress with their initial stored form.
+func (e *env) storeUnchanged() {
+	st := e.get(ingName)
+	if !reflect.DeepEqual(st, e.stable0) {
+		e.find("C14/stable-modified/store", fmt.Sprintf("at the end of the sequence the stable Ingress in the store differs at %v\nbefore: %s\nafter:  %s", lib.JSONDiff(e.stable0, st), lib.J(e.stable0), lib.J(st)))
+	}
+	by := e.get(bystander)
+	if !reflect.DeepEqual(by, e.by0) {
+		e.find("C14/foreign-write/store", fmt.Sprintf("at the end of the sequence the unrelated Ingress %q differs at %v", bystander, lib.JSONDiff(e.by0, by)))
+	}
+	e.logf("stable Ingress and bystander Ingress byte-identical to their initial stored form: %v", reflect.DeepEqual(st, e.stable0) && reflect.DeepEqual(by, e.by0))
 }
 
 var reDigits = regexp.MustCompile(`[0-9]+`)
@@ -405,7 +475,7 @@ func errClass(msg string) string {
 	if len(msg) > 60 {
 		msg = msg[:60]
 	}
-	return strings.ReplaceAll(msg, "/", "_")
+	return strings.ReplaceAll(strings.ReplaceAll(msg, "/", "_"), " ", "-")
 }
 
 func (e *env) conf() ingress.Config {
@@ -429,7 +499,7 @@ func (e *env) enter(st Step) stepResult {
 	kinds := []string{}
 	for res.Calls < maxCalls {
 		res.Calls++
-		before := e.get(canaryIng)
+		before := e.canary
 		var done bool
 		var err error
 		p := lib.Catch(func() {
@@ -489,7 +559,7 @@ func (e *env) enter(st Step) stepResult {
 			break
 		}
 	}
-	c := e.get(canaryIng)
+	c := e.canary
 	res.Exists = c != nil
 	if c != nil {
 		res.Ann = c.Annotations
@@ -542,7 +612,7 @@ func panicInputClass(st *netv1.Ingress) string {
 
 func (e *env) finalise() {
 	for i := 1; i <= 2; i++ {
-		before := e.get(canaryIng)
+		before := e.canary
 		var modified bool
 		var err error
 		p := lib.Catch(func() {
@@ -592,7 +662,7 @@ func execute(ing *netv1.Ingress, class string, seq []Step, verbose bool) *trace 
 		Spec: netv1.IngressSpec{Rules: []netv1.IngressRule{{Host: "z.com", IngressRuleValue: netv1.IngressRuleValue{HTTP: &netv1.HTTPIngressRuleValue{
 			Paths: []netv1.HTTPIngressPath{{Path: "/", PathType: &prefix, Backend: svcBackend(stableSvc, 80, "")}}}}}}}}
 	cli := fake.NewClientBuilder().WithScheme(scheme).WithObjects(ing.DeepCopy(), by).Build()
-	e := &env{cli: cli, class: class, tr: tr, verbose: verbose}
+	e := &env{cli: &recClient{Client: cli}, class: class, tr: tr, verbose: verbose}
 	e.stable0 = e.get(ingName)
 	e.by0 = e.get(bystander)
 	e.expPaths = expectedCanaryPaths(e.stable0)
@@ -608,6 +678,8 @@ func execute(ing *netv1.Ingress, class string, seq []Step, verbose bool) *trace 
 	}
 	e.logf("finalise")
 	e.finalise()
+	e.storeUnchanged()
+	tr.wrote = len(e.cli.writes) > 0
 	return tr
 }
 
@@ -724,12 +796,15 @@ func (j *job) computeRefs() {
 
 func Run(r *lib.Report) {
 	th := r.Thorough()
-	r.Rule = "part A (structure): every stable Ingress with 0..2 (thorough 0..3) rules from a 9-rule alphabet (with/without http section; paths to the stable Service by port number/name, " +
-		"to another Service, to Resource backends) x {bare, labels+className+tls+defaultBackend} x annotation shapes x class {nginx,aliyun-alb,higress,mse} x every step sequence of length <=1 " +
-		"(thorough <=2 for Ingresses with <=2 rules) then Finalise twice; part B (histories): 2 Ingresses x all 7 annotation shapes (nil, empty, user, class keys, stale canary keys, mse subset, stale query/modifier keys) " +
-		"x class x every step sequence of length <=3 (thorough <=4) over the class's step alphabet (weight 30%/0%, header exact/regex/no-type, cookie, weight+header, 0%+header; mse: query exact/regex, " +
-		"header+query, requestHeaderModifier.set with weight / with query), each compared with the reference history of its last step. Every case is executed on the real provider with the built-in Lua script " +
-		"on a fresh fake store; non-trivial = the provider wrote (create/patch/delete) in the case."
+	// the cases are allocation-heavy (a Lua VM and JSON round trips per call) and small; trade memory for GC time
+	debug.SetGCPercent(400)
+	r.Rule = "part A (structure): every stable Ingress with 0..2 rules from a 9-rule alphabet (with/without http section; paths to the stable Service by port number/name, to another Service, " +
+		"to Resource backends incl. one named like the stable Service) x {bare, labels+className+tls+defaultBackend} x annotation shapes {user, nil} (thorough: all 7) x class {nginx,aliyun-alb,higress,mse} " +
+		"x every single step of the class alphabet, then Finalise twice; thorough adds every 3-rule Ingress (bare, 2 annotation shapes, single steps) and every 2-step sequence on the bare user-annotated <=2-rule Ingresses. " +
+		"Part B (histories): the Ingress [a.com(stable,other), no-host(stable)] (thorough also [a.com(stable)]) x all 7 annotation shapes (user, nil, empty, class+rewrite, stale canary keys, mse service-subset, " +
+		"stale query/modifier keys) x class x every step sequence of length <=3 (thorough: <=4 for 2 annotation shapes) over the class's step alphabet (30%, 0%, header exact/regex/no-type, cookie, 30%+header, " +
+		"0%+header; mse adds query exact/regex, header+query, requestHeaderModifier.set with weight / with query; thorough adds 100% and a two-match step), each sequence followed by Finalise twice and compared " +
+		"with the reference history of its last step. Every case runs the real provider with the built-in Lua script on a fresh fake store; non-trivial = the provider wrote (create/patch/delete) in the case."
 	r.Assumptions = []string{
 		"entering a step = calling EnsureRoutes with that step (fresh provider per call, as the manager does per reconcile) until it reports done, at most 5 calls; the annotations of a step are those in the store at that moment",
 		"history independence is judged between executions in which a canary Ingress exists after the step: reference = the step alone, or [w30, step] when the step alone does not create one; an absent canary Ingress after a 0%-without-matches step is accepted (nothing to route)",
@@ -753,11 +828,14 @@ func Run(r *lib.Report) {
 			dims[i] = len(rules)
 		}
 		if l == 0 {
-			ruleLists = append(ruleLists, nil)
+			// the plain one-rule Ingress first (it becomes the witness of input-independent findings), then the empty one
+			ruleLists = append(ruleLists, []int{0}, nil)
 			continue
 		}
 		lib.Product(dims, func(idx []int) bool {
-			ruleLists = append(ruleLists, append([]int{}, idx...))
+			if !(l == 1 && idx[0] == 0) {
+				ruleLists = append(ruleLists, append([]int{}, idx...))
+			}
 			return true
 		})
 	}
@@ -771,14 +849,17 @@ func Run(r *lib.Report) {
 	ingressesA := 0
 	for _, rl := range ruleLists {
 		for _, extras := range []bool{false, true} {
+			if len(rl) == 3 && extras {
+				continue
+			}
 			for ci, class := range classes {
 				anns := annAlphabet(class)
-				if !th {
+				if !th || len(rl) == 3 {
 					anns = anns[:2] // user, nil
 				}
 				for _, a := range anns {
 					ml := 1
-					if th && len(rl) <= 2 {
+					if th && len(rl) <= 2 && !extras && a.name == "user" {
 						ml = 2
 					}
 					if ci == 0 {
@@ -795,13 +876,21 @@ func Run(r *lib.Report) {
 		histLen = 4
 	}
 	ingressesB := 0
-	for _, rl := range [][]int{{0}, {3, 1}} {
+	histIngresses := [][]int{{3, 1}}
+	if th {
+		histIngresses = [][]int{{3, 1}, {0}}
+	}
+	for hi, rl := range histIngresses {
 		for ci, class := range classes {
 			for _, a := range annAlphabet(class) {
 				if ci == 0 {
 					ingressesB++
 				}
-				jobs = append(jobs, &job{ing: buildIngress(rules, rl, a.m, false), label: "B " + label(rl, false, a.name), class: class, alpha: stepAlphabet(class, th), maxLen: histLen})
+				ml := 3
+				if th && hi == 0 && (a.name == "user" || a.name == "stale-query+modifier-keys") {
+					ml = 4
+				}
+				jobs = append(jobs, &job{ing: buildIngress(rules, rl, a.m, false), label: "B " + label(rl, false, a.name), class: class, alpha: stepAlphabet(class, th), maxLen: ml})
 			}
 		}
 	}
